@@ -279,7 +279,7 @@ def tool_checks(ctx, stock, jitter, n_inputs):
                     which = [i for i, (a, bb) in enumerate(zip(got, ref)) if a != bb]
                     what = ("output-differs", "threads:%d batch_size:%d: output file(s) %s differ from the threads:1 result" % (k, b, which))
                 if what:
-                    keep = os.path.join(vlib.ROOT, "replays", "C12", "files-%d-%d" % (ctx.seed, len(fails)))
+                    keep = os.path.join(ctx.replay_dir, "files-%d-%d" % (ctx.seed, len(fails)))
                     os.makedirs(keep, exist_ok=True)
                     shutil.copy(inp["model"], keep)
                     shutil.copy(vocab, keep)
